@@ -208,6 +208,34 @@ def _find_lcas(
     for dt, cmt in cands:
         if not ((cstates[cmt] & _DNC) == _DNC) and (dt, cmt) not in results:
             results.append((dt, cmt))
+
+    # The loop above stops as soon as everything left to visit is marked _DNC,
+    # which can be before _DNC has reached an earlier candidate that is an
+    # ancestor of a later one (whatever the timestamps).  Like git's
+    # remove_redundant(), drop every candidate reachable from another one.
+    if len(results) > 1:
+        remaining = {cmt for dt, cmt in results}
+        redundant: set[ObjectID] = set()
+        for dt, cmt in results:
+            seen = {cmt}
+            todo = [cmt]
+            while todo:
+                cur = todo.pop()
+                try:
+                    parents = lookup_parents(cur)
+                except KeyError:
+                    if shallows is not None and shallows:
+                        continue
+                    raise
+                for pcmt in parents:
+                    if pcmt in seen:
+                        continue
+                    seen.add(pcmt)
+                    if pcmt in remaining:
+                        redundant.add(pcmt)
+                    todo.append(pcmt)
+        results = [(dt, cmt) for dt, cmt in results if cmt not in redundant]
+
     results.sort(key=lambda x: x[0])
     lcas = [cmt for dt, cmt in results]
     return lcas
@@ -339,7 +367,7 @@ def can_fast_forward(repo: "BaseRepo", c1: ObjectID, c2: ObjectID) -> bool:
 
     # Algorithm: Find the common ancestor
     try:
-        min_stamp = lookup_stamp(c1)
+        lookup_stamp(c1)
     except KeyError:
         # If c1 doesn't exist in the object store, we can't determine fast-forward
         # This can happen in shallow clones where c1 is a missing parent
@@ -350,12 +378,13 @@ def can_fast_forward(repo: "BaseRepo", c1: ObjectID, c2: ObjectID) -> bool:
             return False
         raise
 
+    # No min_stamp cut-off: commit timestamps need not be monotone along
+    # the history, so pruning parents older than c1 can miss c1 itself.
     lcas = _find_lcas(
         lookup_parents,
         c1,
         [c2],
         lookup_stamp,
-        min_stamp=min_stamp,
         shallows=parents_provider.shallows,
     )
     return lcas == [c1]
